@@ -283,6 +283,9 @@ pub enum StrForm {
     /// no quotes; field-ending and special characters as `\c`, non-printable
     /// as `\DDD`; impossible for the empty string
     Unquoted,
+    /// unquoted, with the first character written as `\X` whatever it is
+    /// (legal for every non-digit character, RFC 1035 s5.1)
+    UnquotedEscFirst,
     /// "..." with every octet as `\DDD`
     QuotedAllDec,
     /// "..." with every octet raw except `"` and `\` (so raw TAB, CR, LF and
@@ -323,6 +326,16 @@ pub fn charstr_text(s: &[u8], form: StrForm) -> Option<(Vec<u8>, usize)> {
                     _ => o.extend_from_slice(format!("\\{ch:03}").as_bytes()),
                 }
             }
+        }
+        StrForm::UnquotedEscFirst => {
+            let first = *s.first()?;
+            if first.is_ascii_digit() || !(0x21..=0x7e).contains(&first) {
+                return None;
+            }
+            o.push(b'\\');
+            o.push(first);
+            let (rest, _) = if s.len() > 1 { charstr_text(&s[1..], StrForm::Unquoted)? } else { (Vec::new(), 0) };
+            o.extend_from_slice(&rest);
         }
         StrForm::QuotedAllDec => {
             o.push(b'"');
